@@ -73,6 +73,21 @@ class Processor {
 
 public:
 
+#ifdef HEX_VERIF
+  // Verification access; compiled only with -DHEX_VERIF.
+  typedef bool (*VerifObserver)(void *ctx, Processor &p); // Return false to stop run().
+  VerifObserver verifObserver = nullptr;
+  void *verifCtx = nullptr;
+  uint32_t verifPC() const { return pc; }
+  uint32_t verifAreg() const { return areg; }
+  uint32_t verifBreg() const { return breg; }
+  uint32_t verifOreg() const { return oreg; }
+  void verifSetRegs(uint32_t p, uint32_t a, uint32_t b, uint32_t o) { pc = p; areg = a; breg = b; oreg = o; }
+  uint32_t *verifMemory() { return memory.data(); }
+  size_t verifCycles() const { return cycles; }
+  bool verifRunning() const { return running; }
+#endif
+
   Processor(std::istream &in, std::ostream &out, size_t maxCycles=0) :
     pc(0), areg(0), breg(0), oreg(0),
     io(in, out), truncateInputs(true), out(out),
@@ -356,6 +371,9 @@ public:
           throw std::runtime_error("invalid instruction");
       }
       cycles++;
+#ifdef HEX_VERIF
+      if (verifObserver && !verifObserver(verifCtx, *this)) break;
+#endif
     }
     return exitCode;
   }
